@@ -1285,10 +1285,11 @@ def LPF(
 
     padlen = min(3 * (2 * len(sos_band) + 1), signal.size - 1)  # scipy's default edge padding grows with the order, short inputs only have len-1 samples to give
 
-    output.signal = sg.sosfiltfilt(sos_band, signal, padlen=padlen).real
+    # integer samples (e.g. the uint8 slots of a binary_sequence) are filtered as floats: the odd edge extension 2*x[0]-x[k] wraps in an unsigned type
+    output.signal = sg.sosfiltfilt(sos_band, signal.astype(np.result_type(signal, float)), padlen=padlen).real
 
     if noise is not None:
-        output.noise = sg.sosfiltfilt(sos_band, noise, padlen=padlen).real
+        output.noise = sg.sosfiltfilt(sos_band, noise.astype(np.result_type(noise, float)), padlen=padlen).real
 
     if retH:
         _, H = sg.sosfreqz(sos_band, worN=signal.size, fs=fs, whole=True)
